@@ -23,7 +23,7 @@ impl World for CollWorld {
     }
 
     fn props() -> &'static [&'static str] {
-        &["C06", "C07", "C08", "C14", "C15", "C16", "ALL"]
+        &["C01", "C06", "C07", "C08", "C14", "C15", "C16", "ALL"]
     }
 
     fn generate(prop: &str, run_seed: u64, index: u64, tier: Tier) -> Trace {
